@@ -123,7 +123,7 @@ def run_case(case, obs):
             return False
         if not names:
             return True
-        cm = np.asarray(net.constraint_matrix, dtype=float)
+        cm = np.array(net.constraint_matrix, dtype=float)  # a copy
         if cm.shape != (len(names), len(net.station_ids)):
             obs.violate("matrix_shape", f"after {tag}: {cm.shape}", **wit)
             return False
@@ -151,6 +151,18 @@ def run_case(case, obs):
             if not np.allclose(dfrow, exp, rtol=1e-12, atol=1e-15):
                 obs.violate("constraints_as_df", f"after {tag}: df row {nm} = {dfrow} expected {exp}", **wit)
                 return False
+        # a client edits the frame it was handed (a what-if study): the network's own rows must not follow
+        try:
+            df.iloc[:, :] = 7.25
+            df.loc[names[0]] = 0.0
+            obs.ev("returned_frames_edited_by_the_client")
+        except Exception:
+            obs.ev("returned_frames_read_only")
+        cm2 = np.asarray(net.constraint_matrix, dtype=float)
+        if cm2.shape != cm.shape or not np.array_equal(cm2, cm):
+            obs.violate("accessor_result_aliases_network_state", f"after {tag}: editing the DataFrame returned by constraints_as_df() changed "
+                        f"the network's constraint matrix", **wit)
+            return False
         return True
 
     nops = 0
